@@ -301,6 +301,31 @@ def parse_sanitizer_text(txt):
                 cur_case = {"raw": ln[7:200]}
             i += 1
             continue
+        if "ERROR: LeakSanitizer: detected memory leaks" in ln:
+            # one report per "Direct leak" block whose allocation stack has a frame of the library (indirect leaks hang off a
+            # direct one; blocks allocated by the harness alone are the harness's business)
+            j = i + 1
+            while j < n and not lines[j].startswith("SUMMARY:"):
+                bm = re.match(r"^(Direct|Indirect) leak of (\d+) byte\(s\) in (\d+) object\(s\) allocated from:", lines[j])
+                if not bm:
+                    j += 1
+                    continue
+                k = j + 1
+                st, text = [], [lines[j]]
+                while k < n and lines[k].strip():
+                    fm = _FRAME.match(lines[k])
+                    if fm:
+                        st.append((_short_fn(fm.group(2)), fm.group(3), int(fm.group(4))))
+                    text.append(lines[k])
+                    k += 1
+                if bm.group(1) == "Direct":
+                    func = next((fn for fn, fpath, fl in st if _in_repo(fpath)), None)
+                    reps.append(dict(tool="lsan", kind="leak", func=func or "?", file=next((os.path.basename(fp) for fn, fp, fl in st if _in_repo(fp)), "?"),
+                                     pair=[], case=cur_case, stack=["%s %s:%d" % (a, os.path.basename(b), c) for a, b, c in st[:14]],
+                                     in_repo=func is not None, bytes=int(bm.group(2)), objects=int(bm.group(3)), text="\n".join(text[:40])))
+                j = k
+            i = j + 1
+            continue
         m = re.search(r"ERROR: AddressSanitizer: ([\w-]+)", ln)
         if m:
             kind, tool = m.group(1), "asan"
